@@ -298,7 +298,8 @@ def hoomd_problems(cls, variant=0, obj=None):
                    "ConvexSpheropolyhedron": {"vertices", "centroid", "sweep_radius", "volume"}}[cls]
     if set(d) != expect_keys:
         probs.append(f"keys {sorted(d)} != {sorted(expect_keys)}")
-    if not np.allclose(np.asarray(d["centroid"], float), 0, atol=1e-12):
+    size = float(np.abs(np.asarray(core.vertices, float) - np.asarray(core.centroid, float)).max()) if hasattr(core, "vertices") else 1.0
+    if not np.allclose(np.asarray(d["centroid"], float), 0, atol=1e-9 * size):
         probs.append("centroid is not (0,0,0)")
     if "vertices" in d:
         c = np.asarray(core.centroid, float)
@@ -306,14 +307,15 @@ def hoomd_problems(cls, variant=0, obj=None):
         got = np.asarray(d["vertices"], float)
         if got.shape[1] == 2:
             want = want[:, :2]
-        if not np.allclose(got, want, atol=1e-9 * max(1.0, np.abs(want).max())):
+        if not np.allclose(got, want, rtol=0, atol=1e-9 * np.abs(want).max()):
             probs.append("vertices are not those of the shape centred at its centroid")
     if "moment_inertia" in d:
         # inertia about the centroid = inertia of the centred shape
         import copy
         sh = copy.deepcopy(obj)
         sh.centroid = (0.0, 0.0, 0.0)
-        if not np.allclose(np.asarray(d["moment_inertia"], float), np.asarray(sh.inertia_tensor, float), rtol=1e-9, atol=1e-12):
+        it_want = np.asarray(sh.inertia_tensor, float)
+        if not np.allclose(np.asarray(d["moment_inertia"], float), it_want, rtol=1e-9, atol=1e-9 * float(np.abs(it_want).max())):
             probs.append("moment_inertia is not the inertia tensor about the centroid")
     for k, m in (("volume", "volume"), ("area", "area")):
         if k in d and abs(float(d[k]) - float(getattr(obj, m))) > 1e-9 * abs(float(getattr(obj, m))):
@@ -351,6 +353,18 @@ def run(chk):
                 fails.append((f"roundtrip[{cls}/{variant}]", {"class": cls, "problems": rp}))
             if hp:
                 fails.append((f"to_hoomd:one_centred_shape[{cls}]", {"class": cls, "problems": hp}))
+            # very small and very large shapes (an absolute tolerance in an exporter is invisible at unit size)
+            if cls not in CURVED and not known_hoomd(cls):
+                from .c16 import _scaled_stock
+                for sc in (1e-9, 1e-4, 1e6):
+                    n += 1
+                    try:
+                        hs = hoomd_problems(cls, variant, _scaled_stock(cls, sc, variant))
+                    except Exception as e:  # noqa: BLE001
+                        hs = [f"{type(e).__name__}: {e}"[:200]]
+                    if hs:
+                        fails.append((f"to_hoomd:one_centred_shape[{cls}/scale={sc:g}]", {"class": cls, "scale": sc, "problems": hs}))
+                        break
             if rp or hp:
                 continue
             # the same object: representations read once, then the shape is moved / resized through its public setters and
@@ -392,7 +406,7 @@ def run(chk):
         chk.record("roundtrips", fkey, "bounded-pass", "round-trip", kind="bounded", detail=f"{n} round trips")
     chk.bounded.append({"clause": "eval(repr(x)) and from_gsd_type_shapes(x.gsd_shape_spec) rebuild the same class / geometry; to_hoomd values "
                                   "all describe the shape centred at its centroid",
-                        "bound": "1 (curved) / 2 (vertex-based) off-origin stock shapes per class, fresh and again after each public "
+                        "bound": "1 (curved) / 2 (vertex-based) off-origin stock shapes per class (to_hoomd also at scales 1e-9, 1e-4, 1e6), fresh and again after each public "
                                  "move / resize of the same object", "evaluations": n, "distinct_nontrivial": n,
                         "rule": "distinct = (class, stock shape, representation)", "samples": [{"class": "Polyhedron", "variant": 0}],
                         "failures": len(fails), "exhaustive": False})
